@@ -33,6 +33,7 @@ def run(ctx):
     ctx.rule("R3.totals-sum-all", "allocation_totals reads bytes and count of every registry entry inside one loop over the registry", floor=2)
     ctx.rule("R4.delta", "span delta = current counters/totals minus the snapshot stored at span creation", floor=4)
     ctx.rule("R5.accumulate-total", "OperationMetrics::add_span and ::merge update every field exactly once on every path (no early exit), scalar totals by adding the matching operand, accumulators by add/merge of the matching operand", floor=10)
+    ctx.rule("R6.one-critical-section-per-decision", "Session (Sync, documented for concurrent same-name use): looking an operation up and creating it when absent happen under ONE acquisition of the operations lock - a lookup under one acquisition deciding an insert under another lets two threads each create the entry, and one thread's spans are lost to the report", floor=1)
     ctx.rule("R5.merge-occupied-only", "Report::merge adds the right-hand operation's metrics to an entry that already existed, and inserts a clone when it did not - never inserts AND merges the same operand (that counts it twice)", floor=1)
     ctx.rule("R4.sink", "both span kinds record through OperationMetrics::add_span exactly once per non-panicking drop", floor=2)
 
@@ -432,3 +433,29 @@ def run(ctx):
                 bad.append(f"merge applied to the entry returned by {sorted(names & {'or_insert_with', 'or_insert', 'or_default', 'insert', 'insert_entry'})} at {bd.loc(t['span'])}")
         ctx.ob("R5.merge-occupied-only", "Report::merge", bool(merges) and not bad, rm.loc(),
                f"merge sites {len(merges)}; on a just-inserted entry: {bad or 'none'}")
+
+    # ---------------- R6: one critical section per decision on the session's operation table
+    from ..analysis import LockSections
+
+    def is_lock(t):
+        # the lock of the operation TABLE (Mutex<HashMap<..>>), not the per-operation metrics mutexes nested under it
+        return t["callee"].get("method") in ("lock", "try_lock") and callee_key(t["callee"]).rsplit("::", 1)[0].endswith("Mutex") and \
+            "Mutex::<std::collections::HashMap<" in t["callee"].get("full", "").replace("sync::poison::mutex::", "sync::").replace("std::sync::", "")
+    ls = LockSections(prog, is_lock)
+    n6 = 0
+    for b in prog.bodies:
+        if b.is_closure or "::tests" in b.key or not b.key.startswith("alloc_tracker::session::") or not ls.locks(b):
+            continue
+        n6 += 1
+        ctx.fn(b)
+        pairs, sites = ls.check_then_act(b)
+        det = f"{len(sites)} critical-section site(s)"
+        if pairs:
+            bb1, t1, bb2, t2, gbb = pairs[0]
+            det += (f"; what `{callee_key(t1['callee']).split('::')[-1]}` found under one acquisition (line {t1['span']['line']}) decides whether "
+                    f"`{callee_key(t2['callee']).split('::')[-1]}` acts under another (line {t2['span']['line']}): two threads creating the same operation "
+                    f"both find nothing and both insert - one thread's spans land in a metrics object the report never sees")
+        ctx.ob("R6.one-critical-section-per-decision", b.key.replace("alloc_tracker::", ""), not pairs, b.loc(), det)
+    if n6 == 0:
+        ctx.missing("R6.one-critical-section-per-decision", "functions of alloc_tracker::session that take the operations lock")
+
